@@ -48,6 +48,12 @@ Lemma sprint_css ind buf e sfx : sprint ind (JSCss buf e sfx)
      | None => []
      end) ++ [CText (indent_text ind); CName buf; CText t_pluseq; CStrLit 39 sfx; CText t_semi_nl].
 Proof. reflexivity. Qed.
+Lemma sprint_call ind buf name d ps : sprint ind (JSCall buf name d ps)
+  = pprint ind ps ++ sp_ind ind ++ ([CName buf; CText t_pluseq; CName name; CText t_lpar] ++ jcall_arg d (jp_args ps) ++ [CText t_call_tail]) ++ [CText t_nl].
+Proof. reflexivity. Qed.
+Lemma pprint_cont ind k g body r : pprint ind (JPCont k g body r)
+  = (sp_ind ind ++ [CText t_var; CName g; CText t_eq_empty] ++ [CText t_nl]) ++ bprint ind body ++ pprint ind r.
+Proof. reflexivity. Qed.
 Lemma bprint_cons ind s r : bprint ind (JBCons s r) = sprint ind s ++ bprint ind r. Proof. reflexivity. Qed.
 Lemma lprint_else ind b : lprint ind (JLElse b) = [CText t_else; CText t_brace_nl] ++ bprint (S ind) b ++ sp_ind ind ++ [CText t_rbrace].
 Proof. reflexivity. Qed.
@@ -69,6 +75,10 @@ Lemma swf_switch lv v cs : swf lv (SSwitch v cs) = cwf lv v && kwf lv cs. Proof.
 Lemma swf_for lv x e body hasie ie : swf lv (SFor x e body hasie ie) = is_ident x && cwf lv e && bwf (x :: lv) body && bwf lv ie. Proof. reflexivity. Qed.
 Lemma swf_forrange lv x a1 rest body hasie ie : swf lv (SForRange x a1 rest body hasie ie)
   = is_ident x && (Nat.leb (length rest) 2) && cwf lv a1 && forallb (cwf lv) rest && bwf (x :: lv) body && bwf lv ie. Proof. reflexivity. Qed.
+Lemma swf_call lv name d ps : swf lv (SCall name d ps)
+  = (match d with DExpr e => cwf lv e | _ => true end) && pwf lv ps. Proof. reflexivity. Qed.
+Lemma pwf_val lv k e r : pwf lv (PVal k e r) = cwf lv e && pwf lv r. Proof. reflexivity. Qed.
+Lemma pwf_cont lv k body r : pwf lv (PCont k body r) = bwf lv body && pwf lv r. Proof. reflexivity. Qed.
 Lemma bwf_cons lv s r : bwf lv (BCons s r) = swf lv s && bwf lv r. Proof. reflexivity. Qed.
 Lemma ewf_else lv b : ewf lv (EElse b) = bwf lv b. Proof. reflexivity. Qed.
 Lemma ewf_elif lv c th rest : ewf lv (EElif c th rest) = cwf lv c && bwf lv th && ewf lv rest. Proof. reflexivity. Qed.
@@ -211,18 +221,42 @@ Qed.
 
 Ltac chunks_eq := repeat rewrite <- app_assoc; cbn [app]; rewrite ?app_nil_r; reflexivity.
 
+(* ---- calls ---- *)
+(* the JavaScript name a call uses is the template's name (the ES5 formatter; the ES6 formatter renames and imports) *)
+Definition cn_ok : Prop := forall name, fmt_bytes (fmt_call_name (o_fmt o)) name = name.
+Lemma gres_note key imp st i b a s n : shape st i b a s n -> gres (note_called key imp) st [] i b a s n.
+Proof.
+  intro H. destruct imp as [|c r]; [apply gres_ret; exact H|].
+  exists (set_called (aset (j_called st) key (c :: r)) st). split; [reflexivity|]. destruct st; cbn in *. split; [reflexivity|exact H].
+Qed.
+(* visitCall's loop over the parameters, one step *)
+Lemma jcall_params_val w first k e r acc st :
+  jcall_params w first (NParamValue 0 k e :: r) acc st
+  = (bl <~ jblock w e ;; jcall_params w false r ((if first then acc else acc ++ [CText t_comma_sp]) ++ [CName k; CText t_colon_sp] ++ bl)) st.
+Proof. reflexivity. Qed.
+Lemma jcall_params_cont w first k content r acc st :
+  jcall_params w first (NParamContent 0 k content :: r) acc st
+  = (jsln [CText t_var; CName (jsc_name t_param (j_n st + 1)); CText t_eq_empty] ;;; w content ;;; jmod (set_buf (j_buf st)) ;;;
+     jcall_params w false r ((if first then acc else acc ++ [CText t_comma_sp]) ++ [CName k; CText t_colon_sp; CName (jsc_name t_param (j_n st + 1))]))
+      (set_buf (jsc_name t_param (j_n st + 1)) (set_scope (j_scope st) (j_n st + 1) st)).
+Proof. destruct first; reflexivity. Qed.
+
 Definition GQ_s (s : cstmt) : Prop := forall lv f st j sc' n' i bf a sc n,
   (sdepth s < f)%nat -> sc <> [] -> lvok lv sc -> swf lv s = true -> shape st i bf a sc n -> sgen a bf sc n s = (j, (sc', n')) ->
   gres (jwalk o f (snode s)) st (sprint i j) i bf a sc' n'.
 Definition GQ_b (b : cblk) : Prop := forall lv f st jb n' i bf a sc n,
   (bdepth b <= f)%nat -> sc <> [] -> lvok lv sc -> bwf lv b = true -> shape st i bf a sc n -> bgen a bf sc n b = (jb, n') ->
-  exists sc', tl sc' = tl sc /\ gres (jwalk_list (jwalk o f) (bnodes b)) st (bprint i jb) i bf a sc' n'.
+  exists sc', tl sc' = tl sc /\ (msg_ok b = true -> sc' = sc) /\ gres (jwalk_list (jwalk o f) (bnodes b)) st (bprint i jb) i bf a sc' n'.
 Definition GQ_e (e : celse) : Prop := forall lv F st jl n' i bf a sc n,
   (edepth e < F)%nat -> sc <> [] -> lvok lv sc -> ewf lv e = true -> shape st i bf a sc n -> egen a bf sc n e = (jl, n') ->
   gres (jif_conds (jwalk o F) false (enodes e)) st (lprint i jl) i bf a sc n'.
 Definition GQ_k (k : ccases) : Prop := forall lv F st jk n' i bf a sc n,
   (kdepth k < F)%nat -> sc <> [] -> lvok lv sc -> kwf lv k = true -> shape st i bf a sc n -> kgen a bf sc n k = (jk, n') ->
   gres (jswitch_cases (jwalk o F) (knodes k)) st (kprint i jk) i bf a sc n'.
+Definition GQ_p (ps : cparams) : Prop := forall lv F st jps n' i bf a sc n first acc,
+  (pdepth ps < F)%nat -> sc <> [] -> lvok lv sc -> pwf lv ps = true -> shape st i bf a sc n -> pgen a sc n ps = (jps, n') ->
+  exists stf, jcall_params (jwalk o F) first (pnodes ps) acc st = Ok (acc ++ jps_print first (jp_args jps), stf)
+              /\ j_out stf = rev (pprint i jps) ++ j_out st /\ shape stf i bf a sc n'.
 
 Lemma sgen_scope mode buf sc n s j sc' n' : sgen mode buf sc n s = (j, (sc', n')) -> sc <> [] -> tl sc' = tl sc /\ sc' <> [].
 Proof.
@@ -241,7 +275,7 @@ Proof.
   assert (H2 : shape x2 i bf a ([] :: sc) n /\ j_out x2 = j_out x1).
   { subst x2. destruct H1 as (? & ? & ? & ? & ?). destruct x1; cbn in *. subst. repeat split. }
   destruct H2 as (H2 & O2).
-  destruct (Hb lv f x2 jb n' i bf a ([] :: sc) n ltac:(lia) ltac:(discriminate) (lvok_push _ _ Hlv) Hwf H2 Eg) as (sc' & Htl & (x3 & E3 & O3 & I3 & B3 & A3 & S3 & N3)).
+  destruct (Hb lv f x2 jb n' i bf a ([] :: sc) n ltac:(lia) ltac:(discriminate) (lvok_push _ _ Hlv) Hwf H2 Eg) as (sc' & Htl & _ & (x3 & E3 & O3 & I3 & B3 & A3 & S3 & N3)).
   unfold gres. erewrite jbind_ok; [|exact E2]. erewrite jbind_ok; [|exact E3].
   exists (set_scope (tl (j_scope x3)) (j_n x3) x3). split; [reflexivity|].
   split; [cbn; rewrite O3, O2; reflexivity|].
@@ -295,7 +329,49 @@ Proof.
   - chunks_eq.
 Qed.
 
-Theorem sgen_print_all : (forall s, GQ_s s) /\ (forall b, GQ_b b) /\ (forall e, GQ_e e) /\ (forall k, GQ_k k).
+(* raw text and print need nothing of the generator's options (no call name, no message bundle): usable with any jopts,
+   e.g. for the resolved items of a translated message (Proofs/MsgThreeSided.v) *)
+Lemma sgen_print_raw t : GQ_s (SRaw t).
+Proof.
+  intros lv f st j sc' n' i bf a sc n Hf Hn Hlv Hwf Hs Eg. rewrite sgen_raw in Eg. inversion Eg; subst. clear Eg.
+  destruct f as [|f]; [cbn in Hf; lia|]. rewrite snode_raw. eapply gres_walk; [reflexivity|exact Hs|]. intros st1 H1. cbn [jwalk_node sprint].
+  unfold write_raw_text. eapply gres_eq.
+  + gbind x Hx. apply gres_indent; exact H1.
+    unfold bufname. unfold gres. erewrite jbind_ok; [|erewrite jbind_ok; [reflexivity|reflexivity]].
+    replace (j_buf x) with bf by (symmetry; apply Hx). apply gres_emit. exact Hx.
+  + reflexivity.
+Qed.
+Lemma sgen_print_print e ds : GQ_s (SPrint e ds).
+Proof.
+  intros lv f st j sc' n' i bf a sc n Hf Hn Hlv Hwf Hs Eg. rewrite sgen_print_eq in Eg. inversion Eg; subst. clear Eg.
+  rewrite snode_print. cbn [sprint]. cbn [sdepth] in Hf. destruct Hs as (<- & <- & <- & <- & <-). cbn [swf] in Hwf.
+  destruct (cgen_print_dirs o e ds lv f st ltac:(lia) Hwf Hlv) as (stf & E & O & I & B & S & A & N). exists stf. repeat split; auto.
+Qed.
+
+Hypothesis HCN : cn_ok.
+(* no translation bundle: a message is rendered from its source *)
+Hypothesis HNB : o_msgs o = None.
+
+Lemma sprint_seq ind jb : sprint ind (JSSeq jb) = bprint ind jb. Proof. reflexivity. Qed.
+Lemma swf_msg lv body : swf lv (SMsg body) = msg_ok body && bwf lv body. Proof. reflexivity. Qed.
+Lemma msg_size_mnodes body : msg_ok body = true -> msg_size (mnodes body) = S (length (mnodes body)).
+Proof.
+  unfold msg_size. intro Hm. f_equal. induction body as [|s r IH]; [reflexivity|]. cbn [msg_ok] in Hm. apply andb_prop in Hm. destruct Hm as [Hs Hr].
+  cbn [mnodes fold_right length]. rewrite (IH Hr). destruct s; try discriminate Hs; reflexivity.
+Qed.
+(* visitMsgNode's loop over the children of a message without plural: the statements, one after the other *)
+Lemma gen_msg_children w body : msg_ok body = true -> forall fuel st, (length (mnodes body) < fuel)%nat ->
+  jmsg_children w fuel (mnodes body) st = jwalk_list w (bnodes body) st.
+Proof.
+  induction body as [|s r IH]; intros Hm fuel st Hf; (destruct fuel as [|f]; [cbn [length] in Hf; lia|]); [reflexivity|].
+  cbn [msg_ok] in Hm. apply andb_prop in Hm. destruct Hm as [Hs Hr]. cbn [mnodes bnodes length] in *. fold bnodes.
+  assert (Hstep : forall x, jmsg_children w (S f) (x :: mnodes r) st = (w (snode s) ;;; jmsg_children w f (mnodes r)) st ->
+                  jmsg_children w (S f) (x :: mnodes r) st = jwalk_list w (snode s :: bnodes r) st).
+  { intros x Hx. rewrite Hx. cbn [jwalk_list]. unfold jbind. destruct (w (snode s) st) as [[u st1]| | | | |]; try reflexivity. apply IH; [exact Hr|lia]. }
+  destruct s; try discriminate Hs; apply Hstep; reflexivity.
+Qed.
+
+Theorem sgen_print_all : (forall s, GQ_s s) /\ (forall b, GQ_b b) /\ (forall e, GQ_e e) /\ (forall k, GQ_k k) /\ (forall ps, GQ_p ps).
 Proof.
   apply cstmt_mutind.
   - (* raw *) intros t lv f st j sc' n' i bf a sc n Hf Hn Hlv Hwf Hs Eg. rewrite sgen_raw in Eg. inversion Eg; subst. clear Eg.
@@ -510,20 +586,77 @@ Proof.
         apply gres_emit; exact Hx3.
       * unfold sp_ind. chunks_eq.
     + eapply gres_eq; [eapply gres_bind; [apply gres_ret; exact H1|intros y Hy; apply Hraw; exact Hy]|reflexivity].
+  - (* call *) intros name d ps IHp lv f st j sc' n' i bf a sc n Hf Hn Hlv Hwf Hs Eg. rewrite sgen_call in Eg.
+    destruct (pgen a sc n ps) as [jps n1] eqn:Ep. inversion Eg; subst. clear Eg.
+    rewrite sdepth_call in Hf. destruct f as [|F]; [lia|]. rewrite snode_call, sprint_call.
+    eapply gres_walk; [reflexivity|exact Hs|]. intros st1 H1. pose proof H1 as (I1 & B1 & A1 & S1 & N1). cbn [jwalk_node].
+    rewrite swf_call in Hwf. apply andb_prop in Hwf. destruct Hwf as [Hwd Hwp].
+    unfold visit_call.
+    assert (Hlv1 : lvok lv (j_scope st1)) by (rewrite S1; exact Hlv).
+    assert (E0 : (match cdata_node d with
+                  | Some dn => jblock (jwalk o F) dn
+                  | None => jret (if cdata_all d then [CText t_opt_data] else [CText t_empty_obj])
+                  end) st1 = Ok (jd_print (dgen sc' d), st1)).
+    { destruct d as [| |e]; cbn [cdata_node cdata_all dgen jd_print]; try reflexivity.
+      rewrite <- S1. apply (jblock_expr e lv); [cbn [ddepth] in Hf; lia|exact Hwd|exact Hlv1]. }
+    eapply gres_step; [exact E0|reflexivity|].
+    (* the parameters: the content blocks are written now, the object literal is kept for the call line *)
+    assert (E1 : exists st2, (match pnodes ps with
+                  | [] => jret (jd_print (dgen sc' d))
+                  | _ => ps0 <~ jcall_params (jwalk o F) true (pnodes ps) ([CText t_augment] ++ jd_print (dgen sc' d) ++ [CText t_augment_mid]) ;;
+                         jret (ps0 ++ [CText t_augment_end])
+                  end) st1 = Ok (jcall_arg (dgen sc' d) (jp_args jps), st2)
+                 /\ j_out st2 = rev (pprint i jps) ++ j_out st1 /\ shape st2 i bf a sc' n').
+    { destruct (IHp lv F st1 jps n' i bf a sc' n true ([CText t_augment] ++ jd_print (dgen sc' d) ++ [CText t_augment_mid]) ltac:(lia) Hn Hlv Hwp H1 Ep)
+        as (st2 & E2 & O2 & H2).
+      destruct ps as [|k e r|k body r].
+      - rewrite pgen_nil in Ep. inversion Ep; subst. exists st1. split; [reflexivity|]. split; [reflexivity|exact H1].
+      - exists st2. rewrite pnodes_val. cbn iota. rewrite <- (pnodes_val k e r). erewrite jbind_ok; [|exact E2]. split; [|split; assumption].
+        cbn [jret]. f_equal. f_equal. rewrite pgen_val in Ep. destruct (pgen a sc' n r) as [jr n2]. inversion Ep; subst.
+        cbn [jp_args jcall_arg]. repeat rewrite <- app_assoc. reflexivity.
+      - exists st2. rewrite pnodes_cont. cbn iota. rewrite <- (pnodes_cont k body r). erewrite jbind_ok; [|exact E2]. split; [|split; assumption].
+        cbn [jret]. f_equal. f_equal. rewrite pgen_cont in Ep. destruct (bgen a (jsc_name t_param (n + 1)) ([] :: sc') (n + 1) body) as [jb n2].
+        destruct (pgen a sc' n2 r) as [jr n3]. inversion Ep; subst. cbn [jp_args jcall_arg]. repeat rewrite <- app_assoc. reflexivity. }
+    destruct E1 as (st2 & E1 & O2 & H2).
+    rewrite (HCN name).
+    assert (Hfin : gres (bn <~ bufname ;; jsln (bn ++ [CText t_pluseq; CName name; CText t_lpar] ++ jcall_arg (dgen sc' d) (jp_args jps) ++ [CText t_call_tail]) ;;;
+                         note_called name (fmt_chunks (fmt_call_text (o_fmt o)) name)) st2
+                        (sp_ind i ++ ([CName bf; CText t_pluseq; CName name; CText t_lpar] ++ jcall_arg (dgen sc' d) (jp_args jps) ++ [CText t_call_tail]) ++ [CText t_nl])
+                        i bf a sc' n').
+    { unfold bufname. eapply gres_step; [erewrite jbind_ok; [reflexivity|reflexivity]|reflexivity|].
+      replace (j_buf st2) with bf by (symmetry; apply H2).
+      eapply gres_eq; [gbind x2 Hx2; [apply gres_sln; exact H2|apply gres_note; exact Hx2]|rewrite app_nil_r; reflexivity]. }
+    destruct Hfin as (stf & Ef & Of & Hf').
+    exists stf. erewrite jbind_ok; [|exact E1]. split; [exact Ef|]. split; [|exact Hf'].
+    rewrite Of, O2. rewrite (rev_app_distr (pprint i jps)). apply app_assoc.
+  - (* msg *) intros body IHb lv f st j sc' n' i bf a sc n Hf Hn Hlv Hwf Hs Eg. rewrite sgen_msg in Eg.
+    destruct (bgen a bf sc n body) as [jb n1] eqn:E1. inversion Eg; subst. clear Eg.
+    rewrite swf_msg in Hwf. apply andb_prop in Hwf. destruct Hwf as [Hm Hwb].
+    rewrite sdepth_msg in Hf. destruct f as [|F]; [lia|]. rewrite snode_msg, sprint_seq.
+    eapply gres_walk; [reflexivity|exact Hs|]. intros st1 H1. cbn [jwalk_node]. unfold visit_msg. rewrite HNB.
+    destruct (IHb lv F st1 jb n' i bf a sc' n ltac:(lia) Hn Hlv Hwb H1 E1) as (sc2 & _ & Hsame & (stf & Ef & Of & Hf')).
+    exists stf. rewrite (gen_msg_children (jwalk o F) body Hm) by (rewrite (msg_size_mnodes body Hm); lia).
+    split; [exact Ef|]. split; [exact Of|]. rewrite <- (Hsame Hm). exact Hf'.
   - (* BNil *) intros lv f st jb n' i bf a sc n Hf Hn Hlv Hwf Hs Eg. rewrite bgen_nil in Eg. inversion Eg; subst.
-    exists sc. split; [reflexivity|]. apply gres_ret; exact Hs.
+    exists sc. split; [reflexivity|]. split; [reflexivity|]. apply gres_ret; exact Hs.
   - (* BCons *) intros s IHs r IHr lv f st jb n' i bf a sc n Hf Hn Hlv Hwf Hs Eg. rewrite bgen_cons in Eg. rewrite bdepth_cons in Hf.
     destruct (sgen a bf sc n s) as [j [sc1 n1]] eqn:E1. destruct (bgen a bf sc1 n1 r) as [jr n2] eqn:E2. inversion Eg; subst. clear Eg.
     rewrite bwf_cons in Hwf. apply andb_prop in Hwf. destruct Hwf as [Hws Hwr].
     destruct (sgen_scope _ _ _ _ _ _ _ _ E1 Hn) as [Htl1 Hn1].
     pose proof (lvok_after lv _ _ _ _ _ _ _ _ (swf_binder lv s Hws) E1 Hlv) as Hlv1.
     rewrite bnodes_cons, bprint_cons. cbn [jwalk_list].
-    assert (Hex : forall x, shape x i bf a sc1 n1 -> exists sc', tl sc' = tl sc1
+    assert (Hex : forall x, shape x i bf a sc1 n1 -> exists sc', tl sc' = tl sc1 /\ (msg_ok r = true -> sc' = sc1)
                    /\ gres (jwalk_list (jwalk o f) (bnodes r)) x (bprint i jr) i bf a sc' n').
     { intros x Hx. apply (IHr lv f x jr n' i bf a sc1 n1); [lia|exact Hn1|exact Hlv1|exact Hwr|exact Hx|exact E2]. }
     destruct (IHs lv f st j sc1 n1 i bf a sc n ltac:(lia) Hn Hlv Hws Hs E1) as (x & Ex & Ox & Hx).
-    destruct (Hex x Hx) as (sc' & Htl & (y & Ey & Oy & Hy)).
-    exists sc'. split; [congruence|]. exists y. rewrite (jbind_ok _ _ _ _ _ Ex). split; [exact Ey|].
+    destruct (Hex x Hx) as (sc' & Htl & Hsm & (y & Ey & Oy & Hy)).
+    exists sc'. split; [congruence|]. split.
+    { intro Hm. cbn [msg_ok] in Hm. apply andb_prop in Hm. destruct Hm as [Hms Hmr]. rewrite (Hsm Hmr).
+      destruct s; try discriminate Hms.
+      - rewrite sgen_raw in E1. inversion E1; reflexivity.
+      - rewrite sgen_print_eq in E1. inversion E1; reflexivity.
+      - rewrite sgen_call in E1. destruct (pgen a sc n ps) as [jps np]. inversion E1; reflexivity. }
+    exists y. rewrite (jbind_ok _ _ _ _ _ Ex). split; [exact Ey|].
     split; [rewrite Oy, Ox, rev_app_distr, app_assoc; reflexivity|exact Hy].
   - (* ENone *) intros lv F st jl n' i bf a sc n Hf Hn Hlv Hwf Hs Eg. rewrite egen_none in Eg. inversion Eg; subst. cbn [enodes jif_conds lprint]. apply gres_ret; exact Hs.
   - (* EElse *) intros b IHb lv F st jl n' i bf a sc n Hf Hn Hlv Hwf Hs Eg. rewrite egen_else in Eg. rewrite edepth_else in Hf.
@@ -561,5 +694,38 @@ Proof.
       eapply (gen_case_body b lv F x2 jb n1); [exact IHb|lia|exact Hlv|exact Hwb|exact H2|exact E1|].
       intros y Hy. apply (IHr lv F y jr n' i bf a sc n1); [lia|exact Hn|exact Hlv|exact Hwr|exact Hy|exact E2].
     + chunks_eq.
+  - (* PNil *) intros lv F st jps n' i bf a sc n first acc Hf Hn Hlv Hwf Hs Eg. rewrite pgen_nil in Eg. inversion Eg; subst.
+    exists st. cbn [pnodes jcall_params jp_args jps_print pprint rev app]. rewrite app_nil_r. split; [reflexivity|]. split; [reflexivity|exact Hs].
+  - (* PVal *) intros k e r IHr lv F st jps n' i bf a sc n first acc Hf Hn Hlv Hwf Hs Eg. rewrite pgen_val in Eg.
+    destruct (pgen a sc n r) as [jr n1] eqn:E1. inversion Eg; subst. clear Eg.
+    rewrite pwf_val in Hwf. apply andb_prop in Hwf. destruct Hwf as [Hwe Hwr]. rewrite pdepth_val in Hf. rewrite pnodes_val, jcall_params_val.
+    pose proof Hs as (I1 & B1 & A1 & S1 & N1).
+    erewrite jbind_ok; [|apply (jblock_expr e lv); [lia|exact Hwe|rewrite S1; exact Hlv]]. rewrite S1.
+    destruct (IHr lv F st jr n' i bf a sc n false ((if first then acc else acc ++ [CText t_comma_sp]) ++ [CName k; CText t_colon_sp] ++ jprint (cgen sc e))
+                ltac:(lia) Hn Hlv Hwr Hs E1) as (stf & Ef & Of & Hf').
+    exists stf. split; [|split; [exact Of|exact Hf']]. rewrite Ef. f_equal. f_equal.
+    cbn [jp_args jps_print]. destruct first; repeat rewrite <- app_assoc; reflexivity.
+  - (* PCont *) intros k body IHb r IHr lv F st jps n' i bf a sc n first acc Hf Hn Hlv Hwf Hs Eg. rewrite pgen_cont in Eg.
+    set (g := jsc_name t_param (n + 1)) in *.
+    destruct (bgen a g ([] :: sc) (n + 1) body) as [jb n1] eqn:E1. destruct (pgen a sc n1 r) as [jr n2] eqn:E2. inversion Eg; subst. clear Eg.
+    rewrite pwf_cont in Hwf. apply andb_prop in Hwf. destruct Hwf as [Hwb Hwr]. rewrite pdepth_cont in Hf. rewrite pnodes_cont, jcall_params_cont.
+    pose proof Hs as (I1 & B1 & A1 & S1 & N1). rewrite N1, S1, B1. fold g.
+    set (st2 := set_buf g (set_scope sc (n + 1) st)).
+    assert (H2 : shape st2 i g a sc (n + 1)) by (subst st2; destruct st; cbn in *; repeat split; assumption).
+    assert (O2 : j_out st2 = j_out st) by (subst st2; destruct st; reflexivity).
+    destruct (gres_sln [CText t_var; CName g; CText t_eq_empty] st2 _ _ _ _ _ H2) as (x1 & Ex1 & Ox1 & Hx1).
+    erewrite jbind_ok; [|exact Ex1].
+    destruct (gen_nlist body lv F x1 jb n1 i g a sc (n + 1) IHb ltac:(lia) Hlv Hwb Hx1 E1) as (x2 & Ex2 & Ox2 & Hx2).
+    erewrite jbind_ok; [|exact Ex2].
+    set (x3 := set_buf bf x2).
+    assert (Ex3 : jmod (set_buf bf) x2 = Ok (tt, x3)) by reflexivity.
+    assert (Hx3 : shape x3 i bf a sc n1) by (subst x3; destruct Hx2 as (? & ? & ? & ? & ?); destruct x2; cbn in *; repeat split; assumption).
+    assert (Ox3 : j_out x3 = j_out x2) by (subst x3; destruct x2; reflexivity).
+    erewrite jbind_ok; [|exact Ex3].
+    destruct (IHr lv F x3 jr n' i bf a sc n1 false ((if first then acc else acc ++ [CText t_comma_sp]) ++ [CName k; CText t_colon_sp; CName g])
+                ltac:(lia) Hn Hlv Hwr Hx3 E2) as (stf & Ef & Of & Hf').
+    exists stf. split; [|split; [|exact Hf']].
+    + rewrite Ef. f_equal. f_equal. cbn [jp_args jps_print jprint]. destruct first; repeat rewrite <- app_assoc; reflexivity.
+    + rewrite Of, Ox3, Ox2, Ox1, O2, pprint_cont. rewrite !rev_app_distr. repeat rewrite <- app_assoc. reflexivity.
 Qed.
 End StmtChunks.
